@@ -234,13 +234,13 @@ def rule_link(c, prog):
         if has_remove:
             srcs = []
             for n in core.walk_fn(fn, into_closures=False):
-                if n.get("k") == "MethodCall" and n["m"] == "extend" and "VecDeque" in (n["recv"].get("ty", "") + n["recv"].get("aty", "")):
+                if n.get("k") == "MethodCall" and n["m"] in ("extend", "extend_from_slice") and WORKLIST_TY.search(n["recv"].get("ty", "") + n["recv"].get("aty", "")):
                     root, pth = core.place_root(n["args"][0]) if n["args"] else (None, [])
                     srcs.append((root, tuple(p for p in pth if not p.startswith("."))))
                 fl = core.as_for(n)
                 if fl is not None and n.get("k") != "DropTemps":
                     # `for c in <src> { queue.push_back(c) }` is the same extension
-                    pushes = [x for x in core.walk(fl[2], into_closures=False) if x.get("k") == "MethodCall" and x["m"] == "push_back" and "VecDeque" in (x["recv"].get("ty", "") + x["recv"].get("aty", ""))]
+                    pushes = [x for x in core.walk(fl[2], into_closures=False) if x.get("k") == "MethodCall" and x["m"] in ("push_back", "push") and WORKLIST_TY.search(x["recv"].get("ty", "") + x["recv"].get("aty", ""))]
                     if pushes and not any(core.as_for(y) is not None and y is not n and y.get("k") != "DropTemps" for y in core.walk(fl[2], into_closures=False)):
                         root, pth = core.place_root(fl[1])
                         fields = tuple(p for p in pth if not p.startswith("."))
@@ -323,6 +323,10 @@ def rule_fresh(c, prog):
                 else:
                     c.violation(R, f"{core.short(path)}|referent", f"{path} builds an InstanceBuilder whose referent is `{core.fingerprint(e, 3)}`, not a fresh Ref::new() (or a referent supplied by the caller): instances inserted from such builders share a referent — the second insert overwrites the first in the instance map and the parent lists the same Ref twice", core.loc(x), instance=inst)
     c.floor(R, n, 2, "InstanceBuilder constructors")
+
+
+# a work list of referents: a queue, or a vector walked with a cursor
+WORKLIST_TY = re.compile(r"(VecDeque|alloc::vec::Vec)<rbx_types::referent::Ref")
 
 
 def rule_acyc(c, prog):
